@@ -110,6 +110,7 @@ class Editor(ASTVisitor):
 
     def __init__(self, k, action, replacement=None):
         self.k, self.action, self.count = k, action, -1
+        self.also = set()
         self.replacement = replacement
         self.events = []
         self.target = None
@@ -117,6 +118,8 @@ class Editor(ASTVisitor):
     def enter(self, node):
         self.count += 1
         self.events.append(("enter", node))
+        if self.also and id(node) in self.also:
+            return None               # a second deletion in the same list (the sibling that follows the first target)
         if self.count == self.k:
             self.target = node
             if self.action == "delete":
@@ -171,14 +174,52 @@ def check_edits(text, parse, max_nodes=40):
     n_enter = sum(1 for e in rec.events if e[0] == "enter")
     n = 0
     for k in range(min(n_enter, max_nodes)):
-        for action in ("delete", "replace", "skip"):
+        for action in ("delete", "replace", "skip", "delete-two"):
             doc = parse(text)
             ref = parse(text)
-            ed = Editor(k, action)
+            base = Recorder()
+            base.visit(doc)                                   # unedited traversal of the very same objects: who is entered at all
+            baseline = [nd for kind, _t, nd in base.events if kind == "enter"]
+            ed = Editor(k, "delete" if action == "delete-two" else action)
+            second = None
+            if action == "delete-two":
+                tgt = baseline[k] if k < len(baseline) else None
+                loc_ = locate(doc, tgt) if tgt is not None else None
+                if loc_ is None or loc_[2] is None or loc_[2] + 1 >= len(getattr(loc_[0], loc_[1])):
+                    continue
+                second = getattr(loc_[0], loc_[1])[loc_[2] + 1]
+                if not any(nd is second for nd in baseline):
+                    continue
+                ed.also = {id(second)}
             out = ed.visit(doc)
             n += 1
             target = ed.target
             if target is None:
+                continue
+            if action in ("delete", "skip", "delete-two"):
+                # every other node is still entered and left exactly once: nothing but the target's subtree is lost from the traversal
+                gone = set(id(x) for x in descendants(target)) | ({id(x) for x in descendants(second)} if second is not None else set())
+                want_enter = [nd for nd in baseline if id(nd) not in gone]
+                got_enter = [nd for kind, nd in ed.events if kind == "enter"]
+                not_left = gone | {id(target)} | ({id(second)} if second is not None else set())
+                want_leave = sorted(id(nd) for nd in baseline if id(nd) not in not_left)
+                got_leave = sorted(id(nd) for kind, nd in ed.events if kind == "leave")
+                if [id(x) for x in got_enter] != [id(x) for x in want_enter] or got_leave != want_leave:
+                    missing = [type(x).__name__ for x in want_enter if id(x) not in {id(y) for y in got_enter}]
+                    fails.append(("visit:%s-local" % ("delete" if action != "skip" else "skip"),
+                                  {"kind": type(target).__name__, "text": text, "what": "trace", "action": action},
+                                  "%s of a %s changes the traversal of other nodes (not entered: %s; entered %d, expected %d; left %d, expected %d)" % (
+                                      action, type(target).__name__, missing[:3], len(got_enter), len(want_enter), len(got_leave), len(want_leave))))
+            if action == "delete-two":
+                ref_nodes2 = [e[2] for e in Recorder_events(ref)]
+                rt = ref_nodes2[k] if k < len(ref_nodes2) else None
+                w2 = locate(ref, rt) if rt is not None else None
+                if w2 is not None and w2[2] is not None:
+                    lst = getattr(w2[0], w2[1])
+                    del lst[w2[2]:w2[2] + 2]
+                    if out is None or strip(doc.to_dict()) != strip(ref.to_dict()):
+                        fails.append(("visit:delete-local", {"kind": type(target).__name__, "slot": w2[1], "parent": type(w2[0]).__name__, "text": text, "action": action},
+                                      "deleting two adjacent members of %s.%s did not remove exactly those two" % (type(w2[0]).__name__, w2[1])))
                 continue
             tk = type(target).__name__
             # the same position in the untouched reference tree
